@@ -399,6 +399,35 @@ def value_check(pid, tier_, plan, kbits=14, rule='', extra_execs=(), all_known=F
         for i in range(0, len(zp), 6):
             execs.append(gen.gen_values(rng, sol, nassign=len(zp[i:i + 6]), npts=1, evaluators=evs, zero_plan=zp[i:i + 6]))
             execs[-1].label = 'zeros:%s' % sol
+    # long double parameters that no double holds (all 64 mantissa bits in use): the long double interface alone
+    for sol, evs, na, npt in plan:
+        if sol not in ('sod_1d',):
+            execs.append(gen.gen_values(rng, sol, precs=('ld',), nassign=2, npts=1, evaluators=evs, wide=True))
+            execs[-1].label = 'wide:%s' % sol
+    # ties: two parameters of the same kind exactly equal (all similar-name pairs of a solution with at most 80 of them, a
+    # systematic third of them otherwise; all in the thorough tier)
+    for sol, evs, na, npt in (plan if zeros else []):
+        if gen.purity_picker(sol) is gen.around_default or sol in ('sod_1d', 'cp_normal', 'navierstokes_4d_compressible_powerlaw'):
+            continue
+        prs = gen.similar_pairs(sol)
+        if len(prs) > 80 and tier_ == 'quick':
+            prs = prs[(seed() % 3)::3]
+        tp = [[pr] for pr in prs]
+        for i in range(0, len(tp), 6):
+            execs.append(gen.gen_values(rng, sol, nassign=len(tp[i:i + 6]), npts=1, evaluators=evs, tie_plan=tp[i:i + 6]))
+            execs[-1].label = 'ties:%s' % sol
+    # length scales far outside the usual range (2^-34, 2^-29, 2^24 times the drawn value; negative), points in proportion; and points
+    # with coordinates exactly 0
+    for sol, evs, na, npt in (plan if zeros else []):
+        if gen.purity_picker(sol) is not gen.admissible_param:
+            continue
+        ls = [k for k in CAT[sol]['pars'] if k in ('L', 'Lx', 'Ly', 'Lz')]
+        sp = [{k: f} for k in ls for f in (2.0 ** -34, 2.0 ** -29, 2.0 ** 24, -1.0)] + ([{k: 2.0 ** -31 for k in ls}] if len(ls) > 1 else [])
+        if sp:
+            execs.append(gen.gen_values(rng, sol, nassign=len(sp), npts=1, evaluators=evs, scale_plan=sp))
+            execs[-1].label = 'lengths:%s' % sol
+        execs.append(gen.gen_values(rng, sol, nassign=1, npts=0, evaluators=evs, origin=True))
+        execs[-1].label = 'origin:%s' % sol
     # one whole field switched off (all its amplitudes exactly 0, the constant part included), one field at a time and two at a
     # time: only where nothing but exact fields and gradients is evaluated (the source terms divide by rho and T)
     if fields_off:
@@ -638,9 +667,11 @@ def c19(tier_):
     base = replay.build_executions(edges, walks, cx, 'exc', sweep_every=30, rng=rng)
     base += [gen.gen_registry_random(rng, steps=150) for _ in range(4 if tier_ == 'quick' else 30)]
     base += [gen.gen_init_orders(rng) for _ in range(2 if tier_ == 'quick' else 12)]
+    late = [gen.gen_late(random.Random(seed() + 31 * i)) for i in range(2 if tier_ == 'quick' else 10)]
     # vector parameters through both interfaces, failing lookups right after successful ones (a stale length or buffer in
     # the C layer writes beyond the caller's array)
     base += [gen.gen_param_store(rng, sol, 'd', apis=('cxx', 'c'), steps=60) for sol in NONFIX if CAT[sol]['vecs'] for _ in range(2 if tier_ == 'quick' else 8)]
+    base += late
     execs, grp = [], 0
     # (a) the driver's own allocator: fresh memory filled with 0x00 / 0xCD / 0xFF, freed memory poisoned; the hook
     #     counter is bound to the specification heap (HeapExact), identical re-inits must not grow the heap
@@ -653,7 +684,7 @@ def c19(tier_):
             execs.append(e)
     # (b) the same histories under AddressSanitizer + UndefinedBehaviorSanitizer + LeakSanitizer
     nsan = len(base) if tier_ == 'thorough' else max(8, len(base) // 3)
-    for b in rng.sample(base, min(nsan, len(base))) + base[-2:]:
+    for b in rng.sample(base[:-len(late)], min(nsan, len(base) - len(late))) + base[-len(late) - 2:]:
         execs.append(Execution(b.script, variant='san', label=b.label + ':san'))
     # (c) Valgrind memcheck (thorough tier): uninitialised reads that sanitizers do not see
     vg = []
